@@ -67,7 +67,7 @@ def core_masks(nc):
     return cx, fy
 
 
-def validate_file(nc, cls, orthogonal=None, has_pressure=None, has_wall=True, check_folds=True):
+def validate_file(nc, cls, orthogonal=None, has_pressure=None, has_wall=True, check_folds=True, placement_accuracy=1e-6):
     out = []
     missing = []
     for k in SCALARS_INT + SCALARS_FLOAT:
@@ -181,17 +181,26 @@ def validate_file(nc, cls, orthogonal=None, has_pressure=None, has_wall=True, ch
     area = tri(a, b, c_) + tri(a, c_, d)
     sgn = np.sign(area)
     ref = np.sign(np.median(area))
-    nfold = int((sgn != ref).sum())
     # a bow-tie shows up as the two triangulations disagreeing in sign of a part
     t1, t2, t3, t4 = tri(a, b, c_), tri(a, c_, d), tri(a, b, d), tri(b, c_, d)
     bow = ((np.sign(t1) != ref) & (np.sign(t2) != ref)) | ((np.sign(t3) != ref) & (np.sign(t4) != ref))
-    nfold += int(bow.sum())
+    bad = (sgn != ref) | bow
+    # a cell with an edge shorter than the accuracy to which points are placed along a contour
+    # (FineContour interpolation, 1e-4 m at finecontour_Nfine=100, second order in 1/Nfine) is
+    # degenerate by the choice of settings, not folded by the generator: counted, not judged
+    edges = np.stack([np.hypot(*(q - p)) for p, q in ((a, b), (b, c_), (c_, d), (d, a))])
+    thin = edges.min(axis=0) < 5 * placement_accuracy
+    nthin = int((bad & thin).sum())
+    bad = bad & ~thin
+    nfold = int(bad.sum())
     wh = None
     if nfold:
-        ii = np.argwhere((sgn != ref) | bow)
+        ii = np.argwhere(bad)
         wh = ii[:5].tolist()
     if check_folds:
         out.append(rec("file.no_folded_cell", cls, area.size, nfold, 0, where=wh, note="min |area| %.3g" % float(np.abs(area).min())))
+        if nthin:
+            out.append(rec("informational: inverted cells with an edge shorter than 5 x the point-placement accuracy (%.1e m)" % placement_accuracy, cls + "|thinner-than-accuracy", nthin, 0, 0))
     else:
         # follow_perpendicular_recover=True is the documented opt-in to "an incorrect grid ... useful
         # when adjusting settings": the geometry of such a grid is not judged, only counted
@@ -214,7 +223,14 @@ def run(cap):
         has_p = "pressure" in nc
         has_wall = True
     recover = bool((cap.spec.get("opts") or {}).get("follow_perpendicular_recover"))
-    out = validate_file(nc, cls, orthogonal=orth, has_pressure=has_p, has_wall=has_wall, check_folds=not recover)
+    try:
+        if cap.mesh is not None:
+            nfine = float(cap.mesh.user_options.finecontour_Nfine)
+        else:
+            nfine = float(y.get("finecontour_Nfine", 1000))
+    except Exception:  # noqa: BLE001
+        nfine = 1000.0
+    out = validate_file(nc, cls, orthogonal=orth, has_pressure=has_p, has_wall=has_wall, check_folds=not recover, placement_accuracy=1e-4 * (100.0 / nfine) ** 2)
     # sanity of a file produced from a hostile / shipped input: points on their flux
     # surfaces (file-level, needs the live equilibrium)
     if cap.mesh is not None and cap.spec.get("hostile") and not recover:
